@@ -761,6 +761,44 @@ EXTRA_CELLS = [
 ]
 
 
+# context effects reached INDIRECTLY: a lambda whose body touches the context is put on the stack by an earlier successful
+# cell; later cells run it (EXEC, also from DIP / IF / IF_NONE / ITER / MAP / LOOP bodies, through an APPLY-ed closure or
+# through another lambda) without naming any context-touching primitive themselves, and then fail or not.
+# (setup cell leaving exactly [lambda] on the stack, text pushing the argument, higher-order wrapper usable?)
+INDIRECT_LAMBDAS = [
+    ('LAMBDA unit (big_map string nat) { DROP ; EMPTY_BIG_MAP string nat }', 'UNIT', True),
+    ('LAMBDA (pair nat unit) (big_map nat nat) { DROP ; EMPTY_BIG_MAP nat nat } ; PUSH nat 3 ; APPLY', 'UNIT', False),
+    ('LAMBDA unit (sapling_state 8) { DROP ; SAPLING_EMPTY_STATE 8 }', 'UNIT', False),
+    ('LAMBDA unit unit { PATCH AMOUNT 5 }', 'UNIT', False),
+    ('LAMBDA nat (big_map string nat) { EMPTY_BIG_MAP string nat ; SWAP ; SOME ; PUSH string "k" ; UPDATE }', 'PUSH nat 4', False),
+    ('LAMBDA unit unit { EMPTY_BIG_MAP nat nat ; BIG_MAP_DIFF ; DROP }', 'UNIT', False),
+    ('LAMBDA unit unit { PUSH bool True ; IF { EMPTY_BIG_MAP nat nat ; DROP } { } }', 'UNIT', False),
+]
+INDIRECT_FAILS = [' ; UNIT ; FAILWITH', ' ; PUSH int 1 ; CAR', ' ; DROP ; DROP ; DROP', ' ; PUSH nat 300 ; PUSH nat 1 ; LSL',
+                  ' ; PUSH string "a" ; PUSH int 1 ; ADD']
+
+
+def indirect_session(rng):
+    setup, arg, higher = rng.choice(INDIRECT_LAMBDAS)
+    body = f'DUP ; {arg} ; EXEC ; DROP'      # stack [lambda] -> [lambda]
+    wraps = [body, body, f'UNIT ; DIP {{ {body} }} ; DROP', f'PUSH bool True ; IF {{ {body} }} {{ }}',
+             f'PUSH (option nat) None ; IF_NONE {{ {body} }} {{ DROP }}', f'PUSH (list nat) {{ 1 ; 2 }} ; ITER {{ DROP ; {body} }}',
+             f'PUSH (list nat) {{ 1 }} ; MAP {{ DIP {{ {body} }} }} ; DROP', f'PUSH bool True ; LOOP {{ {body} ; PUSH bool False }}',
+             f'{body} ; {body}']
+    if higher:
+        wraps.append('DUP ; LAMBDA (lambda unit (big_map string nat)) (big_map string nat) { UNIT ; EXEC } ; SWAP ; EXEC ; DROP')
+    cells = []
+    if rng.random() < 0.4:
+        cells.append(rng.choice(['EMPTY_BIG_MAP nat nat ; DROP', 'storage (big_map string nat) ; parameter unit', 'PATCH AMOUNT 1']))
+    cells.append(setup)
+    for _ in range(rng.randrange(2, 6)):
+        w = rng.choice(wraps)
+        cells.append(w + rng.choice(INDIRECT_FAILS) if rng.random() < 0.5 else w)
+    # make the identifiers handed out afterwards visible on the stack and in COMMIT
+    cells += ['DROP ; EMPTY_BIG_MAP string nat', 'storage (big_map string nat) ; parameter unit', 'NIL operation ; PAIR ; COMMIT']
+    return [{'text': t} for t in cells]
+
+
 def extend_session(rng, cells):
     out = list(cells)
     for _ in range(rng.randrange(1, 4)):
@@ -892,7 +930,8 @@ def run(ctx: lib.Ctx) -> None:
                 'GET_AND_UPDATE, DIP and IF_NONE with nested bodies, BEGIN/COMMIT/RUN, BIG_MAP_DIFF, RESET); about a third of the cells get a failure injected at a random '
                 'instruction position, also inside DIP / IF_NONE bodies (FAILWITH, ill-typed operand, stack underflow, mutez overflow, ill-typed literal, unpushable / invalid type, '
                 'undeclared BEGIN, bad COMMIT, parse error, unknown primitive, wrong arity); plus hand-written sessions and the '
-                'witness of fixed defect 19. non-trivial = some cell fails while a big_map is on the stack, or fails after touching the context; '
+                'witness of fixed defect 19; two oracle-only streams (cells outside the model spliced in; lambdas with context effects stored on '
+                'the stack and EXECuted by later failing cells, also from DIP/IF/ITER/MAP/LOOP bodies and APPLY-ed closures). non-trivial = some cell fails while a big_map is on the stack, or fails after touching the context; '
                 'distinct = distinct cell texts')
     # table: the primitive tags the model renders with
     tags = {'Elt': 4, 'None': 6, 'Pair': 7, 'Some': 9, 'Unit': 0x0b, 'int': 0x5b, 'list': 0x5f, 'big_map': 0x61, 'nat': 0x62,
@@ -964,6 +1003,22 @@ def run(ctx: lib.Ctx) -> None:
                           {'cells': texts, 'failed_cells': [i for i, r in enumerate(recs) if r['failed']],
                            'repro': 'from pytezos.michelson.repl import Interpreter; i=Interpreter(); [i.execute(c) for c in cells]; '
                                     'compare with the same loop over the cells not listed in failed_cells'})
+    # third stream, oracle (B) only: context effects reached through lambdas stored on the stack by earlier cells
+    n_ind = 0
+    for _ in range(ctx.n(60, 600)):
+        ind = indirect_session(ctx.rng)
+        why, recs = oracle(ind, [])
+        n_ind += 1
+        texts = [cell_text(c) for c in ind]
+        ctx.dist['indirect:failing_cells:' + str(min(sum(r['failed'] for r in recs), 4))] += 1
+        ctx.case(('ind', tuple(texts)), nontrivial=any(r['failed'] for r in recs), kind='indirect-oracle-only')
+        if why and reported < 3:
+            reported += 1
+            ctx.violation('a failing REPL cell changed the session: ' + why,
+                          {'cells': texts, 'failed_cells': [i for i, r in enumerate(recs) if r['failed']],
+                           'repro': 'from pytezos.michelson.repl import Interpreter; i=Interpreter(); [i.execute(c) for c in cells]; '
+                                    'compare with the same loop over the cells not listed in failed_cells'})
+    ctx.extra['indirect_sessions'] = n_ind
     ctx.extra['extended_sessions'] = n_ext
     bad = ctx.coq_mismatches('repl', IMPORTS, 'fun x => session_fp Rebind (fst x) (snd x)', 'N.eqb',
                              'list (list minstr) * list cell', 'N', cases, shard=ctx.n(13, 100))
